@@ -64,7 +64,10 @@ func differential(api resolve.Client, local resolve.Client, budget int64, root r
 		d.class = "diff:budget-one-sided"
 		d.what = fmt.Sprintf("the resolver is still asking after %d client calls through the %s client, and finishes after %d calls through the other", budget, pick(a.exhausted, "API-backed", "in-memory"), pickN(a.exhausted, l.calls, a.calls))
 	case a.isErr && l.isErr:
-		d.skipped = "error-both"
+		d.skipped = "error-both-same-text"
+		if a.enc != l.enc {
+			d.skipped = "error-both-different-text"
+		}
 	case a.isErr != l.isErr:
 		d.class = "diff:error-one-sided"
 		d.what = fmt.Sprintf("Resolve fails through the %s client only: %s", pick(a.isErr, "API-backed", "in-memory"), pick(a.isErr, a.enc, l.enc))
